@@ -46,7 +46,9 @@ ASSUMPTIONS = ["element kinds: edges, triangles/quads/polygons, tetrahedra and h
                "medit groups elements by kind: triangles, quads, tetrahedra, hexahedra are compared as four ordered sequences",
                "stl is a triangle soup: the sequence of coordinate triples is compared, a refusal (ValueError) of polygons is accepted",
                "attribute storage mode (sparse/dense) and default value are not compared, values are compared with ==",
-               "geogram attribute strings are short words without blanks; integers fit in 32 bits",
+               "geogram attribute strings are printable ASCII, possibly with interior blanks, without leading / trailing blank, '#', '[' or ']'; "
+               "dense strings have at most 32 characters (documented limit), sparse ones 1..200; dense and vector integers fit in 32 bits, "
+               "sparse scalar integers are arbitrary Python ints (what the unchanged library carries through)",
                "the reference writer never uses negative/relative indices; blank and comment lines only where the format description allows them"]
 
 FORMATS = ["obj", "mesh", "geogram_ascii", "off", "tet", "xyz", "stl"]
@@ -98,6 +100,10 @@ def _anchors():
         for arity, dense in ((1, False), (1, True), (3, False), (2, True)):
             out.append(A("attr_%s%d_%s" % (typ, arity, "dense" if dense else "sparse"), formats=["geogram_ascii"],
                          attrs=[{"on": "vertices", "type": typ, "arity": arity, "dense": dense, "dflt": False, "fill": 0.7}], **tri2))
+    for typ, arity in (("str", 1), ("str", 3), ("int", 1)):
+        for cont in ("vertices", "faces"):
+            out.append(A("attr_%s%d_sparse_wide_values_on_%s" % (typ, arity, cont), formats=["geogram_ascii"],
+                         attrs=[{"on": cont, "type": typ, "arity": arity, "dense": False, "dflt": False, "fill": 0.7, "wide": True}], **tri2))
     for typ in ("bool", "int", "float"):
         out.append(A("attr_%s_custom_default" % typ, formats=["geogram_ascii"],
                      attrs=[{"on": "faces", "type": typ, "arity": 1, "dense": False, "dflt": True, "fill": 0.5}], **tri2))
@@ -207,6 +213,10 @@ def cases(seed, tier):
         out.append(d)
     # last, so that a native abort costs no re-run of other cases (each lands at the end of its shard)
     out += _crash_cases()
+    # file names: case of the extension (lower / UPPER / mIxEd / Capitalised) and dots in the base name, for every direction
+    for k, d in enumerate(out):
+        d["ext_case"] = EXT_CASES[k % len(EXT_CASES)]
+        d["dotted_name"] = k % 5 == 2
     return out
 
 
@@ -414,7 +424,7 @@ def _make_attrs(mesh, plan, rng):
         n = len(cont)
         if n == 0:
             continue
-        spec = zin.attr_spec(rng, a["type"], a["arity"], a["dense"], a.get("dflt", False), n, a.get("fill", 0.5))
+        spec = zin.attr_spec(rng, a["type"], a["arity"], a["dense"], a.get("dflt", False), n, a.get("fill", 0.5), a.get("wide", False))
         name = a.get("name", spec["name"] + "_" + a["on"])  # unique per container: a name found elsewhere means "wrong container"
         attr = cont.create_attribute(name, PYTYPE[a["type"]], a["arity"], dense=a["dense"], default_value=spec["default"])
         for i, v in spec["values"].items():
@@ -818,7 +828,7 @@ def direction_save(ctx, desc, inp, fmt, tmp, cfg):
         ctx.note("stl_skipped_outside_float32_range")
         return
     exp = project(snap, fmt, cfg, ignore, n_declared, bool(snap["F"]))
-    path = os.path.join(tmp, "m_%s.%s" % (fmt, fmt))
+    path = os.path.join(tmp, _file_name("m", fmt, desc))
     polygons = fmt == "stl" and any(len(f) >= 5 for f in snap["F"]) and "faces" not in ignore
     ok, res = _call(ctx, "roundtrip", fmt + "/save", M.mesh.save, mesh, path, set(ignore) if ignore else None,
                     expect=(ValueError,) if polygons else ())
@@ -875,6 +885,17 @@ def direction_save(ctx, desc, inp, fmt, tmp, cfg):
 def _kept(made, ignore):
     return [a for a in made if not ((a["on"] == "edges" and "edges" in ignore) or (a["on"] in ("faces", "face_corners") and "faces" in ignore)
                                     or (a["on"] in ("cells", "cell_corners", "cell_faces") and "cells" in ignore))]
+
+
+EXT_CASES = ["lower", "upper", "mixed", "lower", "capital", "upper", "mixed"]
+
+
+def _file_name(prefix, fmt, desc):
+    """<prefix>_<fmt>[.v2].<extension in the case asked by the descriptor>; the format is chosen by the extension whatever its case."""
+    how = desc.get("ext_case", "lower")
+    ext = {"lower": fmt, "upper": fmt.upper(), "capital": fmt.capitalize(),
+           "mixed": "".join(c.upper() if i % 2 else c for i, c in enumerate(fmt))}[how]
+    return "%s_%s%s.%s" % (prefix, fmt, ".v2" if desc.get("dotted_name") else "", ext)
 
 
 def _head(path, n=400):
@@ -992,7 +1013,7 @@ def direction_foreign(ctx, desc, inp, fmt, tmp, cfg):
     for k in ("eol", "float", "extras", "order", "comments", "blank"):
         if k in d and (k != "eol" or d[k] != "\n"):
             ctx.cls("dialect:%s:%s=%s" % (fmt, k, {"\r\n": "crlf"}.get(d[k], d[k])))
-    path = os.path.join(tmp, "f_%s.%s" % (fmt, fmt))
+    path = os.path.join(tmp, _file_name("f", fmt, desc))
     codecs.BY_EXT[fmt].write(path, data, d)
     # the reference reader must understand the reference writer (codec self-check; a failure here is a harness error)
     back = _ref_snapshot(fmt, codecs.BY_EXT[fmt].read(path))
@@ -1058,6 +1079,7 @@ def _run(desc, ctx, tmp):
     ctx.cls("ignore:" + (",".join(desc.get("ignore", [])) or "none"))
     ctx.cls("rows:%s/%s" % (desc["vrows"], desc["irows"]))
     ctx.cls("vstore:%s" % (desc.get("vstore") or "python_float_rows"))
+    ctx.cls("file_name:extension_%s%s" % (desc.get("ext_case", "lower"), ",dotted_base" if desc.get("dotted_name") else ""))
     if F:
         ctx.cls("face_arities:" + ",".join(sorted({_fcls(len(f)) for f in F})))
     if C:
